@@ -3,7 +3,7 @@
     [Print Assumptions]. *)
 From Coq Require Import List ZArith.
 From Webp Require Import Base.Res Vp8l.Vp8lPixel Vp8l.Vp8lArr Vp8l.Vp8lPrefix Vp8l.Vp8lTransforms Vp8l.Vp8lSpec
-  Vp8l.Vp8lCanon Vp8l.Vp8lLut Vp8l.Vp8lLut2 Vp8l.Vp8lPacked Vp8l.Vp8lBitReader Vp8l.Vp8lBitReaderProof Vp8l.Vp8lEmit Vp8l.Vp8lEntropy Vp8l.Vp8lCodeLens Vp8l.Vp8lEmitDecode Vp8l.Vp8lWf Vp8l.Vp8lInPlace Vp8l.Vp8lKernels Vp8l.Vp8lTables Vp8l.Vp8lCacheDefer.
+  Vp8l.Vp8lCanon Vp8l.Vp8lLut Vp8l.Vp8lLut2 Vp8l.Vp8lPacked Vp8l.Vp8lBitReader Vp8l.Vp8lBitReaderProof Vp8l.Vp8lBitReaderFill Vp8l.Vp8lEmit Vp8l.Vp8lEntropy Vp8l.Vp8lCodeLens Vp8l.Vp8lEmitDecode Vp8l.Vp8lWf Vp8l.Vp8lInPlace Vp8l.Vp8lKernels Vp8l.Vp8lTables Vp8l.Vp8lCacheDefer.
 From WebpGen Require Consts Tables Vp8lRoles.
 Import ListNotations.
 Open Scope Z_scope.
@@ -98,14 +98,28 @@ Print Assumptions C03_read_put_bits.
     byte shifting after every read, sticky end-of-stream flag) vs the bit-list
     reader of the specification: for every byte string and every sequence of
     ReadBits(n), 0 <= n <= 24, that stays inside the data, the values are exactly
-    the specification's and the flag stays clear.  Partial: FillBitWindow /
-    PrefetchBits / SetBitPos (the symbol decoder's path) are in the model and in the
-    correspondence runs but not in this theorem. *)
+    the specification's and the flag stays clear.  (Named _partial because it covers ReadBits
+    only; FillBitWindow / PrefetchBits / SetBitPos are covered by
+    [C03_bitreader_script_refines] below.) *)
 Theorem C03_bitreader_window_refines_partial : forall data ns,
   bytes_ok data -> Forall (fun n => 0 <= n <= 24) ns -> total ns <= 8 * Z.of_nat (length data) ->
   br_run ns (br_new data) = map (fun v => (v, false)) (spec_reads ns (bits_of_bytes data)).
 Proof. exact bitreader_window_refines. Qed.
 Print Assumptions C03_bitreader_window_refines_partial.
+
+(** ... and the symbol decoder's path: every script of ReadBits(n <= 24), FillBitWindow +
+    PrefetchBits and SetBitPos(BitPos + k) that keeps the decoder's discipline (at most
+    [slack] bits consumed before the next refill: 56 after a ReadBits, at least 32 after a
+    FillBitWindow; nothing consumed beyond the data; prefetch strictly inside the data)
+    returns the fields (V / 2^p) mod 2^n of the byte string read as one little-endian integer
+    V (= the LSB-first bit order of the format), PrefetchBits returns the 32 bits at the
+    current offset zero-extended beyond the end, and the flag stays clear.  Covers the fast
+    four-byte refill and the byte-wise refill near the end of the buffer. *)
+Theorem C03_bitreader_script_refines : forall data ops,
+  bytes_ok data -> wf_script (8 * Z.of_nat (length data)) ops 0 56 ->
+  br_run ops (br_new data) = spec_script (le_value data) ops 0.
+Proof. exact bitreader_script_refines. Qed.
+Print Assumptions C03_bitreader_script_refines.
 
 (** The read that crosses the end of a buffer of at least 8 bytes raises the
     end-of-stream flag (shorter buffers: only beyond bit 64, as the code tests
@@ -162,6 +176,17 @@ Theorem C03_packed_read_eq_sequential :
   seq_read tg tr tb ta w = Some (packed_read (packed_build g r b a) w).
 Proof. exact packed_read_eq_sequential. Qed.
 Print Assumptions C03_packed_read_eq_sequential.
+
+(** ... so the two branches of the pixel loop of decodeImageData read the same thing: on every
+    group marked UsePackedTable the packed read equals the four ReadSymbol calls (green, then for
+    a literal red, blue, alpha on the successively advanced window) of the other branch. *)
+Theorem C03_packed_read_eq_lut_reads :
+  forall lg lr lb la mg mr mb ma tg tr tb ta g r b a w,
+  table_of lg mg tg g -> table_of lr mr tr r -> table_of lb mb tb b -> table_of la ma ta a ->
+  mg + mr + mb + ma < 6 -> 0 <= w ->
+  packed_read (packed_build g r b a) w = seq_read_lut g r b a w.
+Proof. exact packed_read_eq_lut_reads. Qed.
+Print Assumptions C03_packed_read_eq_lut_reads.
 
 (** ... where walking the tree along a window is reading the symbol from the
     window's bit list (so [C03_prefix_roundtrip] applies to it). *)
